@@ -4,7 +4,7 @@ import re
 import sympy as sp
 import symx, bit, alg, looptx, llir
 from bit import BV, ZERO, ONE
-from symx import Ptr, Unsupported
+from symx import Ptr, Unsupported, TOP
 
 LEVEL = 'proof'
 
@@ -156,7 +156,7 @@ def gcd(ctx, w):
         return
     loc = fn.loc(fn.entry.instrs[0])
     try:
-        dom = alg.Alg()
+        dom = WidthDom()
         a, b = dom.sym('a', integer=True, nonnegative=True), dom.sym('b', integer=True, nonnegative=True)
         tx = looptx.transformer(fn, lookup_in([fn.module]), [a, b], dom, int_bind(dom, w))
         if len(tx.phis) != 2 or len(tx.backs) != 1:
@@ -190,7 +190,17 @@ def gcd(ctx, w):
         rep.unk('W5', name, str(e))
 
 
-class GcdDom(alg.Alg):
+class WidthDom(alg.Alg):
+    """integer helpers: a value cut down to fewer bits is a different value (the exact-integer reading of lib/alg.py treats a
+    truncation as the identity, which is right for indices known to fit and wrong here)"""
+    def cast(self, op, v, fty, tty):
+        if op == 'trunc' and fty.is_int and tty.is_int and tty.a < fty.a and tty.a > 1 and self.concrete(v) is None and v is not TOP \
+                and not isinstance(v, (alg.Cond, alg.BoolOp, bool)):
+            return sp.Function('trunc%d' % tty.a)(v)
+        return alg.Alg.cast(self, op, v, fty, tty)
+
+
+class GcdDom(WidthDom):
     def opaque_call(self, name, args, ins, interp, st):
         if name.endswith('_gcd'):
             return sp.Function(name)(*args)
